@@ -443,7 +443,51 @@ def primitives(ctx: Context, rule: str, classes: T.Iterable[str] | None = None) 
                 rep.ob(rule, fkey("async", f, f"{cn}.{m}:{be}->{dm}"), ok, where(f, calls[0] if calls else None),
                        f"{cn}.{m} under backend {be!r} calls self.{attr}.{dm}() exactly once, guarded by the backend tag only" if ok else
                        f"{cn}.{m} under backend {be!r}: delegation to self.{attr}.{dm}() is missing, repeated, conditional on more than the backend tag, or preceded by a suspension (calls {len(calls)}, guards {sorted(g)})")
+    if want is None or "AsyncEvent" in want:
+        _async_event_outcome(ctx, rule)
     rep.floor(rule, "synchronisation primitive classes checked", n, 1)
+
+
+def _async_event_outcome(ctx: Context, rule: str) -> None:
+    """AsyncEvent.wait reports PoolTimeout only when the wait itself was interrupted by the deadline: the only source of
+    PoolTimeout is the mapping of the runtime's timeout error raised by `fail_after` around the primitive's wait (fail_after
+    raises only if its cancellation was actually delivered; a deadline that passes after the event was set is not a timeout).
+    An explicit `raise PoolTimeout` (for instance after `move_on_after` + `cancel_called`) fails a request that has just been
+    given a connection."""
+    from ..escape import Ctx as ECtx
+
+    rep = ctx.rep
+    c = ctx.prog.module("httpcore._synchronization").classes.get("AsyncEvent")
+    if c is None or "wait" not in c.methods:
+        return
+    f = c.methods["wait"]
+    raises = [r for r in own_nodes(f.node) if isinstance(r, ast.Raise)]
+    problems = []
+    if raises:
+        problems.append(f"explicit `{ast.unparse(raises[0])[:50]}`")
+    for be, lib, tmo in (("trio", "trio", "trio.TooSlowError"), ("asyncio", "anyio", "TimeoutError")):
+        waits = [x for x in own_nodes(f.node) if isinstance(x, ast.Call) and isinstance(x.func, ast.Attribute) and x.func.attr == "wait" and lib in norm(x.func.value)]
+        if len(waits) != 1:
+            problems.append(f"{be}: {len(waits)} waits")
+            continue
+        scopes = []
+        maps = []
+        for a in _anc(waits[0], f):
+            if isinstance(a, (ast.With, ast.AsyncWith)):
+                for it in a.items:
+                    ce = it.context_expr
+                    if isinstance(ce, ast.Call) and (chain(ce.func) or [""])[-1] in ("fail_after", "move_on_after", "CancelScope"):
+                        scopes.append(norm(ce.func))
+                    m = ctx.escape._map_of(it, ECtx(f))
+                    if m is not None:
+                        maps.append(m)
+        if scopes != [f"{lib}.fail_after"]:
+            problems.append(f"{be}: the wait is bounded by {scopes or 'nothing'} (exactly `{lib}.fail_after` expected)")
+        if len(maps) != 1 or [tuple(x) for x in maps[0]] != [(tmo, "PoolTimeout")]:
+            problems.append(f"{be}: exception map around the wait is {maps} (exactly {{{tmo}: PoolTimeout}} expected)")
+    rep.ob(rule, fkey("async", f, "AsyncEvent.wait:outcome"), not problems, where(f, raises[0] if raises else None),
+           "AsyncEvent.wait raises PoolTimeout only as the mapped expiry of fail_after around the wait" if not problems else
+           "AsyncEvent.wait can report PoolTimeout although the event was set: " + "; ".join(problems))
 
 
 def shield(ctx: Context, rule: str) -> None:
